@@ -29,9 +29,12 @@ def ref_effective(target, mn):
         return 1
 
 
+SYMKEYS = ('androguard.core.apk',)
+
+
 def job(jc, spec):
     kind = spec[0]
-    hook.install()
+    hook.install(symkeys=SYMKEYS)
     from androguard.core import apk as apkmod
     apkmod.int = sx_int
     apkmod.logger = NullLogger()
@@ -62,6 +65,39 @@ def job(jc, spec):
                 no_dot = z3.And([cpt(x) != 46 for x in v.c])
                 want = z3.If(first_dot, (pk + v).eq_term(r), z3.If(no_dot, (pk + '.' + v).eq_term(r), v.eq_term(r)))
             jc.obligation(eng, pc, want, ext, label=label, what='component name not completed by the Android rule')
+        eng.partition_guard()
+    elif kind == 'format2':
+        # two APK objects in one process (the answer for one must not depend on what the other was asked before)
+        _, nv, npk = spec
+        v1 = SStr([fresh_char('v%d' % i, 16) for i in range(nv)])
+        v2 = SStr([fresh_char('w%d' % i, 16) for i in range(nv)])
+        p1 = SStr([fresh_char('p%d' % i, 16) for i in range(npk)])
+        p2 = SStr([fresh_char('q%d' % i, 16) for i in range(npk)])
+        eng = jc.new_engine()
+        label = '_format_value on two APK objects value=%d package=%d chars' % (nv, npk)
+        a1 = apkmod.APK.__new__(apkmod.APK)
+        a2 = apkmod.APK.__new__(apkmod.APK)
+
+        def go2():
+            a1.package, a2.package = p1, p2
+            return a1._format_value(v1), a2._format_value(v2), a1._format_value(v1)
+
+        def ext2(m):
+            return dict(kind='format2', value=v1.concrete(m), package=p1.concrete(m), value2=v2.concrete(m), package2=p2.concrete(m))
+
+        def want(pk, v, r):
+            r = SStr.of(r) if isinstance(r, str) else r
+            first_dot = cpt(v.c[0]) == 46
+            no_dot = z3.And([cpt(x) != 46 for x in v.c])
+            return z3.If(first_dot, (pk + v).eq_term(r), z3.If(no_dot, (pk + '.' + v).eq_term(r), v.eq_term(r)))
+        for pc, (k, r) in eng.explore(go2, keep_pcs=True):
+            jc.reached('format')
+            if k == 'exc':
+                jc.obligation(eng, pc, z3.BoolVal(False), ext2, label=label, what='raised %r' % (r,))
+                continue
+            jc.obligations(eng, pc, {'first object': want(p1, v1, r[0]), 'second object': want(p2, v2, r[1]),
+                                     'first object asked again': want(p1, v1, r[2])}, ext2, label=label,
+                           what='%s: component name not completed by the Android rule')
         eng.partition_guard()
     else:
         _, tform, mform = spec
@@ -102,20 +138,26 @@ def job(jc, spec):
         eng.partition_guard()
 
 
+# queries made in the process before the symbolic runs (differential validation); replays repeat them first, so that a
+# witness that depends on what other APK objects were asked earlier reproduces
+HISTORY = [['format', '.A', 'p.q'], ['format', 'A', 'p.q'], ['format', 'x.A', 'p.q'], ['format', '', 'p'], ['format', 'A', ''],
+           ['sdk', '30', '21'], ['sdk', None, '21'], ['sdk', None, None], ['sdk', '', '7'], ['sdk', 'x', None]]
+
+
 def run(ctx):
-    hook.install()
+    hook.install(symkeys=SYMKEYS)
     ctx.functions_encoded = FUNCS
     ctx.bounds = dict(format_value='value 0..6 and package 0..4 fully symbolic BMP characters',
                       effective_sdk='target / min each None, empty, or 1..3 symbolic decimal digits')
-    ctx.stubs = ['APK built with __new__; getters replaced by direct state', 'SStr', 'int() shim']
+    ctx.stubs = ['APK built with __new__; getters replaced by direct state', 'SStr', 'int() shim',
+                 'dictionaries indexed with symbolic keys inside androguard.core.apk are compared with == (side table, reset per path)']
     ctx.assumptions = ['completion rule: leading dot -> package + name; no dot -> package + "." + name; otherwise unchanged']
     ctx.outside_claim = ['everything that walks the lxml tree (find_tags, get_all_attribute_value, permissions, activities, '
                          'services, receivers, providers, main activity, features, libraries, version code/name): lxml is a '
                          'C library, symbolic strings cannot pass through it; typed attribute values are C26/C27']
-    cases = [['format', '.A', 'p.q'], ['format', 'A', 'p.q'], ['format', 'x.A', 'p.q'], ['format', '', 'p'], ['format', 'A', ''],
-             ['sdk', '30', '21'], ['sdk', None, '21'], ['sdk', None, None], ['sdk', '', '7'], ['sdk', 'x', None]]
-    ctx.diff_unhooked(sys.modules[__name__], cases)
+    ctx.diff_unhooked(sys.modules[__name__], HISTORY)
     jobs = [('format', nv, npk) for nv in range(0, 7) for npk in (0, 1, 4)]
+    jobs += [('format2', nv, npk) for nv in (1, 2, 3) for npk in (1, 2)]
     jobs += [('sdk', t, m) for t in (None, '', 1, 2, 3) for m in (None, '', 1, 2)]
     ctx.expect_reach(['format', 'sdk'])
     ctx.pmap(job, jobs)
@@ -135,7 +177,15 @@ def concrete(c):
 
 def replay(w):
     try:
-        if w['kind'] == 'format':
+        for h in HISTORY:
+            concrete(h)
+        if w['kind'] == 'format2':
+            from androguard.core import apk as apkmod
+            a1, a2 = apkmod.APK.__new__(apkmod.APK), apkmod.APK.__new__(apkmod.APK)
+            a1.package, a2.package = w['package'], w['package2']
+            got = [a1._format_value(w['value']), a2._format_value(w['value2']), a1._format_value(w['value'])]
+            exp = [ref_format(w['value'], w['package']), ref_format(w['value2'], w['package2']), ref_format(w['value'], w['package'])]
+        elif w['kind'] == 'format':
             got = concrete(['format', w['value'], w['package']])
             exp = ref_format(w['value'], w['package'])
         else:
@@ -143,4 +193,4 @@ def replay(w):
             exp = ref_effective(w['target'], w['min'])
     except Exception as e:
         return True, '%r raised %r' % (w, e)
-    return got != exp, '%r -> %r, rule gives %r' % (w, got, exp)
+    return got != exp, '%r -> %r, rule gives %r (after the queries %r on other APK objects of the process)' % (w, got, exp, HISTORY[:5])
